@@ -46,6 +46,11 @@ def _case(draw, focus, tier="quick"):
         import copy
 
         labs[1] = dict(copy.deepcopy(labs[0]), pos=[11, 2])
+        # ... whose first well holds 2 uL more, so that moving 1 uL over makes the two objects equal in every respect
+        if labs[1]["kind"] == "trough":
+            labs[1]["init"][0] = labs[1]["init"][0] + 2.0
+        else:
+            labs[1]["init"][0][0] = labs[1]["init"][0][0] + 2.0
     M = draw(st.sampled_from([5, 12.5, 50, 950, 33.3, 1.88, 900.3, 0.7]))
     zeroish = st.one_of(st.just(0), st.just(0), vs_ok(0.01))
     # exact multiples of a non-dyadic max_volume: the float quotient may land a hair above the integer
@@ -57,7 +62,12 @@ def _case(draw, focus, tier="quick"):
     refused = op_transfer(st.just(1.0), max_n=3).map(lambda o: dict(o, refused=True))
     anyop = st.one_of(t, d, direct, direct, refused)
     fop = {"transfer": t, "distribute": d, "direct": direct, "mixed": anyop}[focus]
-    return {"labs": labs, "device": draw(st.sampled_from(["evo", "fluent"])), "M": M, "auto_split": draw(st.sampled_from([True, True, False])), "ops": draw(ops_list(st.one_of(fop, anyop), 1, 14 if tier == "quick" else 25))}
+    ops = draw(ops_list(st.one_of(fop, anyop), 1, 14 if tier == "quick" else 25))
+    if len(labs) >= 2 and labs[0]["name"] == labs[1]["name"]:
+        # levelling the replica with its original: afterwards the two objects are in the same state, and still two objects
+        first = {"op": "transfer", "src": 1, "dst": 0, "sw": {"t": "scalar", "w": [0, 0]}, "dw": {"t": "scalar", "w": [0, 0]}, "vols": {"t": "scalar", "v": 1.0}, "wash": 1, "pb": "auto", "label": "level with the replica", "fail_side": "src", "kw": {}, "ints": False}
+        ops = [first] + ops
+    return {"labs": labs, "device": draw(st.sampled_from(["evo", "fluent"])), "M": M, "auto_split": draw(st.sampled_from([True, True, False])), "ops": ops}
 
 
 def strategy(tier, stratum):
